@@ -78,7 +78,7 @@ class BoolExpr:
         self.expr = totuple(expr)
         self.dof = dof
         self.dir = (F(direction[0]), F(direction[1]))
-        self.lim = lim
+        self.lim = F(lim)
         self.slab = slab
         self.moments = moments
         self.wellformed = wellformed
